@@ -579,7 +579,7 @@ def alphabet(profile, keys, classes, small=False):
         ops.append(("memo", 0, "s", "k1"))
         ops.append(("memo", k2, "t", "k1"))
         ops.append(("memo", 0, "N", "k1"))
-        if profile == "c07":
+        if profile.startswith("c07"):
             ops.append(("memo", k2, "D", "k1"))
             ops.append(("memo", 0, "P", "k1"))
             ops.append(("memo_fault", 0, "D"))
@@ -591,9 +591,9 @@ def alphabet(profile, keys, classes, small=False):
         ops.append(("isall", (0, k2)))
     for sym in sorted({s for s, _ in keys}):
         ops.append(("ff", sym))
-        if profile != "c07":
+        if not profile.startswith("c07"):
             ops.append(("lsm", sym))
-    if profile != "c07":
+    if not profile.startswith("c07"):
         ops.append(("lsm", keys[0][0], 1))
         ops.append(("lsf",))
     ops.append(("fe",))
@@ -649,7 +649,7 @@ def expand(cfg, hist):
     for op in ops:
         run = build(cfg, hist)
         bad = run.step(op)
-        if not bad and profile == "c07":
+        if not bad and profile.startswith("c07"):
             bad = run.integrity()
         if bad:
             viol(op, bad[0], bad[1], hist)
@@ -657,7 +657,10 @@ def expand(cfg, hist):
         k = run.canon()
         from . import bfs as vbfs
 
-        out.append((op, vbfs.digest(k), None, "%s:%s" % (backend, vbfs.digest(k[0])[:10])))
+        # "nm" profiles keep every history apart (no state merging): hidden state that a change adds
+        # to the library (and that the canonical form cannot know about) stays observable
+        dg = vbfs.digest(k) if not profile.endswith("nm") else vbfs.digest((hist, op))
+        out.append((op, dg, None, "%s:%s" % (backend, vbfs.digest(k[0])[:10])))
     return out
 
 
@@ -686,7 +689,7 @@ def replay_history(art):
     bad = None
     for op in hist:
         bad = run.step(op)
-        if not bad and a.get("profile") == "c07":
+        if not bad and str(a.get("profile", "")).startswith("c07"):
             bad = run.integrity()
         print(op, "->", bad)
     if not bad:
